@@ -49,7 +49,7 @@ def tu():
     return s
 
 
-GH = 'g_turn, g_pos, g_done, g_iter, g_last, g_called[0], g_ok[0], g_len[0], g_ncalls[0], g_ae[0], g_re[0], g_lp[0], g_called[1], g_ok[1], g_len[1], g_ncalls[1], g_ae[1], g_re[1], g_lp[1], vf_exc, vf_exc_counter, g_exc_obj, g_exc_type'
+GH = 'g_turn, g_pos, g_done, g_iter, g_last, g_called[0], g_ok[0], g_len[0], g_ncalls[0], g_ae[0], g_re[0], g_lp[0], g_called[1], g_ok[1], g_len[1], g_ncalls[1], g_ae[1], g_re[1], g_lp[1], g_cur, vf_exc, vf_exc_counter, g_exc_obj, g_exc_type'
 
 
 def loop_inv(turn, extra='', locals_assigned=''):
